@@ -136,9 +136,11 @@ def run_exact_case(case, ctx):
     dt = complex(dtp[0], dtp[1])
     H = ec.build_hamiltonian(name, L, ctx.rng(5))
     qd = [int(x) for x in H.qd]
-    if not palette.exactness_predicate(qd, qD, twosite=(integ == 'two')):
-        ctx.cls('layout_fails_exactness_predicate')
-        raise OutOfDomain()
+    # The statement claims exactness whenever the bond dimensions admit every vector of the sector, which every sector-complete
+    # ('maximal') layout does.  Exactness is a theorem only when some bond split is left/right complete (DESIGN.md 4/C09); the
+    # remaining layouts are judged all the same, and their failures carry the class [no_complete_split] (KNOWN_FINDINGS.txt).
+    pred = palette.exactness_predicate(qd, qD, twosite=(integ == 'two'))
+    ctx.cls('layout_with_complete_split' if pred else 'layout_without_complete_split')
     psi = ec.make_state(ctx.rng(0), qd, qD, skind)
     ctx.cls('state_dtype:' + skind)
     v0 = dense.mps_to_vector(psi.A)
@@ -159,7 +161,7 @@ def run_exact_case(case, ctx):
     sdim = len(ec.sector_indices(qd, L, int(qD[-1][0])))
     ctx.nontrivial = sdim >= 2
     ctx.cls(f'exact:{integ}:{"imag" if dt.real == 0 else ("real" if dt.imag == 0 else "complex")}_dt')
-    ctx.close(v, ref, 'evolution_equals_matrix_exponential_on_complete_manifold', tol=1e-9)
+    ctx.close(v, ref, 'evolution_equals_matrix_exponential_on_complete_manifold' + ('' if pred else '[no_complete_split]'), tol=1e-9)
 
 
 # ---- reversibility ------------------------------------------------------------------------------
@@ -174,7 +176,7 @@ def _rev_cases(tier):
             qd = [int(x) for x in H0.qd]
             seen = set()
             for tot in ec.totals_for(qd, L):
-                for prof in ('one', 'small', 'maximal'):
+                for prof in ('one', 'small', 'maximal', 'over'):
                     qD = palette.sector_profile(L, qd, 0, tot, prof)
                     if qD is None or core.canon(qD) in seen or max(map(len, qD)) > 10:
                         continue
@@ -204,10 +206,9 @@ def run_rev_case(case, ctx):
     n0 = np.linalg.norm(v0)
     if n0 < 1e-12:
         raise OutOfDomain()
-    # the projected evolution is only well defined at full-rank points of the manifold (DESIGN.md 2.6): Schmidt rank == bond dimension
-    if full_rank(v0 / n0, d, L) != [len(q) for q in qD[1:-1]]:
-        ctx.cls('rank_deficient_start')
-        raise OutOfDomain()
+    # the projected evolution is only well defined at full-rank points of the manifold (Schmidt rank == bond dimension); the statement
+    # nevertheless says "for any bond dimension": rank-deficient cases are judged too, their failures carry the class [rank_deficient_bond]
+    deficient = full_rank(v0 / n0, d, L) != [len(q) for q in qD[1:-1]]
     # conditioning of going forth and back in (partly) imaginary time: rounding errors are amplified by exp(2 |Re dt| n spread(H));
     # the property quantifies over |dt|*||H|| bounded - cases with an amplification above 1e3 are outside that domain
     lam = np.linalg.eigvalsh(dense.mpo_to_matrix(H.A))
@@ -218,15 +219,15 @@ def run_rev_case(case, ctx):
     numiter = max(a.size for a in psi.A) + 2
     ptn.integrate_local_singlesite(H, psi, dt, steps, numiter_lanczos=numiter)
     v1 = dense.mps_to_vector(psi.A)
-    if full_rank(v1 / np.linalg.norm(v1), d, L) != [len(q) for q in qD[1:-1]]:
-        raise OutOfDomain()
+    deficient = deficient or full_rank(v1 / np.linalg.norm(v1), d, L) != [len(q) for q in qD[1:-1]]
+    ctx.cls('rank_deficient_bond' if deficient else 'full_rank_bonds')
     n2 = ptn.integrate_local_singlesite(H, psi, -dt, steps, numiter_lanczos=numiter)
     ctx.calls += 2
     v2 = dense.mps_to_vector(psi.A)
     ctx.obs(v2)
     ctx.nontrivial = L >= 2
     ctx.cls(f'reverse:{"imag" if dt.real == 0 else ("real" if dt.imag == 0 else "complex")}_dt')
-    ctx.close(float(np.real(n2)) * v2, v0 / n0, 'forward_then_backward_returns_initial_state', tol=1e-10 * amp)
+    ctx.close(float(np.real(n2)) * v2, v0 / n0, 'forward_then_backward_returns_initial_state' + ('[rank_deficient_bond]' if deficient else ''), tol=1e-10 * amp)
     if dt.real == 0:
         ctx.check(abs(float(np.real(n2)) - 1) <= 1e-9, 'second_call_norm_is_one_for_imaginary_dt', n2)
 
@@ -273,10 +274,10 @@ def spaces(tier, seed):
     return [
         Space('exactness', core.chunked(_exact_cases(tier), 10), run_case=run_exact_case, sig=sig,
               bounds={'hamiltonians': ec.ALL_H, 'sector_dim<=': 64 if tier == 'quick' else 256, 'dt': [str(x) for x in DTS], 'steps': [1, 2, 3],
-                      'layout': 'sector-complete (maximal), judged only if the exactness predicate holds'}),
+                      'layout': 'every sector-complete (maximal) layout; failures of layouts without a complete split are classed [no_complete_split]'}),
         Space('reversibility', core.chunked(_rev_cases(tier), 10), run_case=run_rev_case, sig=sig,
-              bounds={'hamiltonians': ec.ALL_H, 'L': [1, 2, 3, 4], 'profiles': ['one', 'small', 'maximal'], 'dt': [str(x) for x in DTS],
-                      'domain': 'full-rank states (Schmidt rank == bond dimension at every cut)'}),
+              bounds={'hamiltonians': ec.ALL_H, 'L': [1, 2, 3, 4], 'profiles': ['one', 'small', 'maximal', 'over'], 'dt': [str(x) for x in DTS],
+                      'domain': 'amplification exp(2|Re dt| n spread(H)) <= 1e3; rank-deficient states are judged and classed [rank_deficient_bond]'}),
         Space('schedule', core.chunked(_sched_cases(tier), 2), run_case=run_sched_case, sig=sig,
               bounds={'L': [1, 2, 3, 4, 5], 'steps': [1, 2], 'integrators': ['single', 'two']}),
     ]
